@@ -4,6 +4,13 @@
 (* The environment updates the switch with any spelling at any time,        *)
 (* decorates a function (plainly, or with no_type_check above / below the   *)
 (* decorator) at any time, and calls it well- or ill-typed.                 *)
+(* The function may also come from a module imported under the import hook   *)
+(* ("hooked": decorated by the hook at import time, whatever the switch says *)
+(* at that moment).  Its body performs a manual isinstance check of an array *)
+(* of size 5 against the axis "a"; the call is made either at top level or   *)
+(* from inside a context block in which a = 3 is bound (outer).  Plain code  *)
+(* sees the CALLER's bindings (verdict F under a = 3, T at top level); a     *)
+(* checked call has its own context (a = 2 from the argument: F).            *)
 (* DisabledIsPlain  : with checking off every call behaves like plain code  *)
 (* ReenableRestores : switching back on restores checking w/o redecoration  *)
 (***************************************************************************)
@@ -12,7 +19,7 @@ EXTENDS JtCallShape, Json
 CONSTANTS MaxSteps,
           Reduced     \* TRUE: only on / off / decorate / call-well / call-ill (longer exhaustive sequences)
 Spellings == {"bool:True", "bool:False", "1", "0", "true", "FALSE", "tRuE", "yes", "2", "", "None", "on"}
-FnKinds == {"plain", "ntc_above", "ntc_below"}
+FnKinds == {"plain", "ntc_above", "ntc_below", "hooked"}
 \* the item name is case-insensitive ("jaxtyping_disable", "JAXTYPING_DISABLE", ...); an unknown item is a ValueError
 ItemNames == {"jaxtyping_disable", "JAXTYPING_DISABLE", "Jaxtyping_Disable", "jaxtyping_nosuchitem"}
 
@@ -28,12 +35,16 @@ Update(item, v) ==
                 /\ dis' = IF p = "on" THEN TRUE ELSE IF p = "off" THEN FALSE ELSE dis
                 /\ Rec([op |-> "update", item |-> item, v |-> v], IF p = "ValueError" THEN "ValueError" ELSE "ok")
              /\ UNCHANGED fn
-Decorate(k) == /\ Can /\ (Reduced => k = "plain") /\ fn' = k /\ UNCHANGED dis /\ Rec([op |-> "decorate", kind |-> k], "ok")
-CallRes(typed) == IF dis \/ fn \in {"ntc_above", "ntc_below"} THEN "ok" ELSE IF typed = "ill" THEN "TCE" ELSE "ok"
-Call(typed) == /\ Can /\ fn # "none" /\ UNCHANGED <<dis, fn>> /\ Rec([op |-> "call", typed |-> typed], CallRes(typed))
+Decorate(k) == /\ Can /\ (Reduced => k \in {"plain", "hooked"}) /\ fn' = k /\ UNCHANGED dis /\ Rec([op |-> "decorate", kind |-> k], "ok")
+Unchecked == dis \/ fn \in {"ntc_above", "ntc_below"}
+\* result of the call : verdict of the body's manual check
+CallRes(typed, outer) == IF Unchecked THEN (IF outer THEN "ok:F" ELSE "ok:T")      \* exactly the undecorated function
+                         ELSE IF typed = "ill" THEN "TCE" ELSE "ok:F"
+Call(typed, outer) == /\ Can /\ fn # "none" /\ (Reduced => ~outer) /\ UNCHANGED <<dis, fn>>
+                      /\ Rec([op |-> "call", typed |-> typed, outer |-> outer], CallRes(typed, outer))
 \* the canonical item name with every spelling of the value; the other item names with two values
 Next == (\E v \in Spellings : Update("jaxtyping_disable", v))
-        \/ (\E item \in ItemNames \ {"jaxtyping_disable"}, v \in {"bool:True", "0"} : Update(item, v)) \/ (\E k \in FnKinds : Decorate(k)) \/ (\E t \in {"well", "ill"} : Call(t))
+        \/ (\E item \in ItemNames \ {"jaxtyping_disable"}, v \in {"bool:True", "0"} : Update(item, v)) \/ (\E k \in FnKinds : Decorate(k)) \/ (\E t \in {"well", "ill"}, o \in BOOLEAN : Call(t, o))
 Spec == Init /\ [][Next]_vars
 
 DisabledIsPlain == (obs = "TCE") => ~dis
